@@ -11,7 +11,7 @@ from ..brokermachine import close
 from ..core import product
 from ..env import scratch_dir
 
-MARKET_DAYS = rm.bdays(datetime.date(2020, 2, 20), datetime.date(2020, 3, 18))
+MARKET_DAYS = rm.bdays(datetime.date(2020, 2, 20), datetime.date(2020, 6, 12))
 WEEK = [datetime.date(2020, 2, 24) + datetime.timedelta(days=i) for i in range(7)]   # Mon .. Sun
 SCHEDULES = [('weekly', w) for w in ('MON', 'TUE', 'WED', 'THU', 'FRI')] + [('daily', None), ('end_of_month', None),
                                                                           ('buy_and_hold', None)]
@@ -82,6 +82,16 @@ def session_cfgs(item):
         else:
             cfg['leverage'] = param
         yield cfg
+    # long horizon: 70 business days (three month ends, a quarter of weekly rebalances) from two alignments
+    for (kind, wd), start_date, fee in itertools.product([('end_of_month', None), ('weekly', 'FRI'), ('daily', None)],
+                                                          [WEEK[0], WEEK[5]], item['fees']):
+        end_date = end_for(start_date, 70)
+        cfg = {'start': '%sT00:00:00+00:00' % start_date.isoformat(), 'end': '%sT23:59:00+00:00' % end_date.isoformat(),
+               'burn_in': None, 'assets': assets, 'universe': {'kind': 'static'},
+               'alpha': {'kind': 'fixed', 'weights': dict(zip(assets, item['weights']))},
+               'rebalance': kind, 'weekday': wd, 'long_only': item['long_only'], 'fee': fee, 'cash': item['cashes'][0]}
+        cfg['buffer' if item['long_only'] else 'leverage'] = item['params'][0]
+        yield cfg
 
 
 def market_of(item):
@@ -99,6 +109,10 @@ def compare(cfg, market, handler):
         numeric['buffer'] = float(Fraction(cfg['buffer']))
     else:
         numeric['leverage'] = float(Fraction(cfg['leverage']))
+    # every other configuration gets an idle second portfolio on the same broker account
+    import zlib
+    if zlib.crc32(repr(sorted(cfg.items(), key=str)).encode()) % 2:
+        numeric['idle_portfolio'] = True
     obs = sl.run_session(numeric, handler)
     fails = []
 
